@@ -199,6 +199,8 @@ pub(crate) fn process_single_response(
 			let json = match result {
 				Ok(s) => s.result,
 				Err(e) => {
+					// The subscription was refused, release the request ID reserved for the unsubscribe call.
+					let _ = manager.complete_pending_call(unsub_id);
 					let _ = send_back_oneshot.send(Err(Error::Call(e)));
 					return Ok(None);
 				}
@@ -207,6 +209,7 @@ pub(crate) fn process_single_response(
 			let sub_id = match serde_json::from_str::<SubscriptionId>(json.get()) {
 				Ok(s) => s.into_owned(),
 				Err(e) => {
+					let _ = manager.complete_pending_call(unsub_id);
 					let _ = send_back_oneshot.send(Err(e.into()));
 					return Ok(None);
 				}
@@ -214,14 +217,27 @@ pub(crate) fn process_single_response(
 
 			let (subscribe_tx, subscribe_rx) = subscription_channel(max_capacity_per_subscription);
 			if manager
-				.insert_subscription(response_id.clone(), unsub_id, sub_id.clone(), subscribe_tx, unsubscribe_method)
+				.insert_subscription(
+					response_id.clone(),
+					unsub_id.clone(),
+					sub_id.clone(),
+					subscribe_tx,
+					unsubscribe_method,
+				)
 				.is_ok()
 			{
 				match send_back_oneshot.send(Ok((subscribe_rx, sub_id.clone()))) {
 					Ok(_) => Ok(None),
-					Err(_) => Ok(build_unsubscribe_message(manager, response_id, sub_id)),
+					Err(_) => {
+						// The caller is gone. The unsubscribe message is sent as an ordinary request which
+						// registers its own ID, thus release the request ID that was reserved for it.
+						let unsub = build_unsubscribe_message(manager, response_id, sub_id);
+						let _ = manager.complete_pending_call(unsub_id);
+						Ok(unsub)
+					}
 				}
 			} else {
+				let _ = manager.complete_pending_call(unsub_id);
 				let _ = send_back_oneshot.send(Err(Error::InvalidSubscriptionId));
 				Ok(None)
 			}
